@@ -1,0 +1,13 @@
+//go:build verif && !verif_skip_cache2
+
+package certmagic
+
+// Verification hooks (build tag "verif" only) for the certificate cache, second file: the
+// capacity currently configured. No existing code is changed.
+
+// VerifCapacity returns CacheOptions.Capacity as currently set (after SetOptions' clamping).
+func (certCache *Cache) VerifCapacity() int {
+	certCache.optionsMu.RLock()
+	defer certCache.optionsMu.RUnlock()
+	return certCache.options.Capacity
+}
